@@ -46,7 +46,10 @@ func (h *Sources) Save() {
 		line.pos = len(line.items)
 	}
 
-	line.items = line.items[:len(line.items)-line.pos]
+	// The state we are on (the one undo stopped at) is not an undone one.
+	if line.pos > 0 {
+		line.items = line.items[:len(line.items)-line.pos+1]
+	}
 
 	// Make a copy of the cursor and ensure its position.
 	cur := core.NewCursor(h.line)
